@@ -1,0 +1,6 @@
+//! Verification seam, compiled only with `--cfg litep2p_verif`.
+//!
+//! Re-exports and thin wrappers that make crate-private components drivable by the external
+//! model-checking harness. No logic lives here.
+
+pub use crate::transport::manager::address::{scores, AddressRecord, AddressStore};
